@@ -8,7 +8,7 @@ _Z80_FILES = ['rustzx-z80/src/cpu.rs', 'rustzx-z80/src/registers.rs', 'rustzx-z8
               'rustzx-z80/src/opcode/internal_block.rs', 'rustzx-z80/src/opcode/internal_stack.rs']
 
 META = {'title': 'Every Z80 instruction yields the architected register/flag/memory/IO result',
- 'lean_modules': ['ZxVerif.Props.C01'],
+ 'lean_modules': ['ZxVerif.Props.C01', 'ZxVerif.Props.C01Laws', 'ZxVerif.Props.C01Laws2', 'ZxVerif.Props.C01Laws3'],
  'extract': ['Z80Tables'],
  'modelled_code': _Z80_FILES,
  'assumptions': ['the ground truth "NMOS Zilog Z80" is the Lean reference semantics ZxVerif/Model/Z80 (Variant.hw): a '
@@ -31,7 +31,11 @@ META = {'title': 'Every Z80 instruction yields the architected register/flag/mem
  'level_text': 'Lean 4 theorems: every table-driven flag computation of rustzx-z80 equals the arithmetic NMOS '
                'definition over its whole operand space (8/16-bit operands, all F), undefined ED opcodes are '
                'two-byte NOPs, DD/FD are neutral on instructions without an HL placeholder, the Q latch law, and '
-               'program runs are folds of single steps; the reference semantics is tied to Z80::emulate on every '
+               'program runs are folds of single steps; the reference semantics obeys the architectural laws of the Z80 '
+               'for all states and memories (C01Laws*: involutions and inverse pairs such as EX/EXX/CPL/NEG twice, '
+               'INC;DEC, PUSH;POP, RLD;RRD, the Nat/Int meaning of ADD/ADC/SUB/SBC/AND/OR/XOR/CP and of the 16-bit '
+               'additions, DAA on packed BCD, LDIR/CPIR run to completion by induction, CALL/RET, DJNZ and the eight '
+               'condition codes); the reference semantics is tied to Z80::emulate on every '
                'run by a correspondence check that enumerates all 1792 opcode encodings x forced and random states '
                'plus random instruction sequences and compares every register, latch and ordered bus access.',
  'level_note': COMMON_NOTE + ' Partial: hardware ground truth for obscure Z80 behaviour is represented by the Lean '
